@@ -6,6 +6,7 @@ package asm
 // very definition object the module lists under that ID.
 
 import (
+	"reflect"
 	"regexp"
 	"fmt"
 	"strings"
@@ -187,6 +188,114 @@ func TestVerifC17Asm(t *testing.T) {
 		}()
 	}
 	fmt.Printf("REPLAY-SAMPLE %d combinations of three definitions of !x\n", cases)
+	fmt.Printf("REPLAY-CASES %d\n", cases)
+	if fails > 0 {
+		t.Fatalf("%d failures", fails)
+	}
+}
+
+
+// TestVerifC18Nodes (shared by C17 and C18): enumerated and scalar fields of specialised metadata nodes survive
+// print and parse -- a field the printer leaves out as "default" must be read back as that value -- and a numbered
+// node used in a named metadata definition is printed as a reference.
+func TestVerifC18Nodes(t *testing.T) {
+	cases, fails := 0, 0
+	fail := func(f string, a ...interface{}) {
+		fails++
+		if fails <= 20 {
+			fmt.Printf("REPLAY-FAIL %s\n", fmt.Sprintf(f, a...))
+		}
+	}
+	scalars := func(n interface{}) string {
+		v := reflect.ValueOf(n)
+		for v.Kind() == reflect.Ptr || v.Kind() == reflect.Interface {
+			if v.IsNil() {
+				return "<nil>"
+			}
+			v = v.Elem()
+		}
+		if v.Kind() != reflect.Struct {
+			return fmt.Sprint(n)
+		}
+		var sb strings.Builder
+		for i := 0; i < v.NumField(); i++ {
+			f := v.Field(i)
+			switch f.Kind() {
+			case reflect.Bool, reflect.String, reflect.Int, reflect.Int8, reflect.Int16, reflect.Int32, reflect.Int64, reflect.Uint, reflect.Uint8, reflect.Uint16, reflect.Uint32, reflect.Uint64:
+				fmt.Fprintf(&sb, "%s=%v ", v.Type().Field(i).Name, f.Interface())
+			}
+		}
+		return sb.String()
+	}
+	var lines []string
+	for _, k := range []string{"DW_MACINFO_define", "DW_MACINFO_undef", "DW_MACINFO_start_file", "DW_MACINFO_end_file", "DW_MACINFO_vendor_ext"} {
+		lines = append(lines, "!10 = !DIMacroFile(type: "+k+", line: 1, file: !2)", "!10 = !DIMacro(type: "+k+", line: 1, name: \"n\", value: \"v\")")
+	}
+	for _, k := range []string{"DW_ATE_float", "DW_ATE_signed", "DW_ATE_boolean", "DW_ATE_unsigned_char"} {
+		lines = append(lines, "!10 = !DIBasicType(name: \"t\", size: 32, encoding: "+k+")")
+	}
+	for _, k := range []string{"NoDebug", "FullDebug", "LineTablesOnly", "DebugDirectivesOnly"} {
+		lines = append(lines, "!10 = distinct !DICompileUnit(language: DW_LANG_C99, file: !2, emissionKind: "+k+")")
+	}
+	for _, k := range []string{"GNU", "None"} {
+		lines = append(lines, "!10 = distinct !DICompileUnit(language: DW_LANG_C_plus_plus, file: !2, emissionKind: FullDebug, nameTableKind: "+k+")")
+	}
+	for _, k := range []string{"DW_VIRTUALITY_none", "DW_VIRTUALITY_virtual", "DW_VIRTUALITY_pure_virtual"} {
+		lines = append(lines, "!10 = distinct !DISubprogram(name: \"f\", scope: !1, file: !2, line: 1, virtuality: "+k+", spFlags: 0)")
+	}
+	for _, k := range []string{"DW_CC_normal", "DW_CC_program", "DW_CC_nocall", "DW_CC_pass_by_value"} {
+		lines = append(lines, "!10 = !DISubroutineType(cc: "+k+", types: !4)")
+	}
+	for _, k := range []string{"CSK_MD5", "CSK_SHA1"} {
+		lines = append(lines, "!10 = !DIFile(filename: \"a\", directory: \"b\", checksumkind: "+k+", checksum: \"00\")")
+	}
+	for _, line := range lines {
+		cases++
+		src := line + "\n!1 = !DIFile(filename: \"a\", directory: \"b\")\n!2 = !DIFile(filename: \"c\", directory: \"d\")\n!4 = !{}\n"
+		func() {
+			defer func() {
+				if e := recover(); e != nil {
+					fail("node `%s`: panic %v", line, e)
+				}
+			}()
+			m1, err := ParseString("n1.ll", src)
+			if err != nil {
+				fail("node `%s`: %v", line, err)
+				return
+			}
+			m2, err := ParseString("n2.ll", m1.String())
+			if err != nil {
+				fail("node `%s`: the printed module does not parse: %v", line, err)
+				return
+			}
+			find := func(defs []metadata.Definition) metadata.Definition {
+				for _, d := range defs {
+					if d.ID() == 10 {
+						return d
+					}
+				}
+				return nil
+			}
+			a, b := scalars(find(m1.MetadataDefs)), scalars(find(m2.MetadataDefs))
+			if a != b {
+				fail("node `%s`: after print and parse the node reads %s, before %s", line, b, a)
+			}
+		}()
+	}
+	// numbered nodes in a named metadata definition are printed as references
+	for _, node := range []string{"!DIExpression(DW_OP_deref)", "!{i32 1}", "!DIFile(filename: \"a\", directory: \"b\")", "distinct !{}"} {
+		cases++
+		src := "!n = !{!1, !0, !1}\n!0 = !{}\n!1 = " + node + "\n"
+		m, err := ParseString("nm.ll", src)
+		if err != nil {
+			fail("named metadata over %s: %v", node, err)
+			continue
+		}
+		if out := m.String(); !strings.Contains(out, "!n = !{!1, !0, !1}") {
+			fail("named metadata over the numbered node %s is not printed as `!n = !{!1, !0, !1}`:\n%s", node, out)
+		}
+	}
+	fmt.Printf("REPLAY-SAMPLE %d specialised nodes with enumerated fields, e.g. %s\n", len(lines), lines[2])
 	fmt.Printf("REPLAY-CASES %d\n", cases)
 	if fails > 0 {
 		t.Fatalf("%d failures", fails)
